@@ -147,6 +147,10 @@ def run_namespace(case):
 
 # --------------------------------------------------------------------------------- sub: modules
 
+VATTRS = ["keep", "no_retiming", "async_reg", "mr_ff", "ars_ff1", ["iostandard", "LVCMOS33"], ["slew", "FAST"], ["drive", 8]]
+XLATE = {"keep": ("keep", "true"), "no_retiming": ("dont_touch", "true"), "async_reg": ("async_reg", "true"),
+         "mr_ff": ("mr_ff", "true"), "ars_ff1": ("ars_ff1", "true")}
+
 ATTRS = ["a", "b", "x", "x_1", "x1", "a_b", "sink", "data", "reg", "wire", "repeat", "union", "uwire", "state",
          "mem", "mem_1", "always", "x0", "b_1", "storage", "x_2"]
 
@@ -159,7 +163,8 @@ def st_modules(tier):
         for ci in range(ncls):
             nsig = draw(st.integers(1, 4))
             sig_attrs = draw(st.lists(st.sampled_from(ATTRS), min_size=nsig, max_size=nsig, unique=True))
-            sigs = [{"attr": a, "w": draw(st.integers(1, 4)), "kind": draw(st.sampled_from(["attr", "attr", "local", "named"]))}
+            sigs = [{"attr": a, "w": draw(st.integers(1, 4)), "kind": draw(st.sampled_from(["attr", "attr", "local", "named"])),
+                     "vattr": [VATTRS[i] for i in draw(st.lists(st.integers(0, len(VATTRS) - 1), max_size=4, unique=True))]}
                     for a in sig_attrs]
             nanon = draw(st.integers(0, 2))
             subs = []
@@ -200,14 +205,17 @@ def _source(case):
         L.append("        self.o = Signal(4)")
         L.append("        acc = [self.i]")
         for s in c["sigs"]:
+            va = ""
+            if s.get("vattr"):
+                va = ", attr={%s}" % ", ".join(repr(tuple(a)) if isinstance(a, list) else repr(a) for a in s["vattr"])
             if s["kind"] == "attr":
-                L.append("        self.%s = Signal(%d)" % (s["attr"], s["w"]))
+                L.append("        self.%s = Signal(%d%s)" % (s["attr"], s["w"], va))
                 L.append("        v = self.%s" % s["attr"])
             elif s["kind"] == "local":
-                L.append("        %s = Signal(%d)" % (s["attr"], s["w"]))
+                L.append("        %s = Signal(%d%s)" % (s["attr"], s["w"], va))
                 L.append("        v = %s" % s["attr"])
             else:
-                L.append("        v = Signal(%d, name=%r)" % (s["w"], s["attr"]))
+                L.append("        v = Signal(%d, name=%r%s)" % (s["w"], s["attr"], va))
             L.append("        self.sync += v.eq(acc[-1] + 1)")
             L.append("        acc.append(v)")
         if c["anon"]:
@@ -283,7 +291,7 @@ def _convert(case, pre):
                 self.comb += self.a.eq(self.x)
         Unrelated()
     top = g["M0"]()
-    out = convert(top, ios={top.i, top.o, top.cd_sys.clk, top.cd_sys.rst}, name="top")
+    out = convert(top, ios={top.i, top.o, top.cd_sys.clk, top.cd_sys.rst}, name="top", attr_translate=XLATE)
     return out
 
 
@@ -392,6 +400,63 @@ def run_keyword(case):
     return ok(nt=True)
 
 
+FAMILY = ["x", "x_1", "x_2", "x_1_1", "x_3"]
+
+
+def enum_family(tier):
+    """ALL sequences (= multiset x request order) of 2..5 (thorough 6) names from one suffix family, as
+    overrides and as hierarchy-derived names."""
+    import itertools
+    out = []
+    kmax = 5 if tier == "quick" else 6
+    for k in range(2, kmax + 1):
+        for seq in itertools.product(range(len(FAMILY)), repeat=k):
+            for how in (("ovr",) if k >= 5 else ("ovr", "bt", "mix")):
+                out.append({"seq": list(seq), "how": how})
+    return out
+
+
+def run_family(case):
+    sigs = []
+    for i, n in enumerate(case["seq"]):
+        name = FAMILY[n]
+        how = case["how"] if case["how"] != "mix" else ("ovr" if i % 2 else "bt")
+        if how == "ovr":
+            sigs.append({"bt": [["top", 0], ["s%d" % i, 0]], "rel": None, "ovr": name})
+        else:
+            sigs.append({"bt": [["m%d" % i, 0], [name, 0]] if case["how"] == "mix" else [[name, 0]], "rel": None, "ovr": None})
+    return run_namespace({"sigs": sigs, "order": list(range(len(sigs))), "shift": 0})
+
+
+def st_hashseed(tier):
+    return st_modules(tier)
+
+
+def run_hashseed(case):
+    """two runs = two processes: the text must not depend on the per-process string hash seed"""
+    import subprocess, sys, json, os, hashlib
+    from vlib import env
+    if not any(len(s.get("vattr", [])) >= 2 for c in case["classes"] for s in c["sigs"]) and len(case["classes"]) < 2:
+        return skip("no multi-attribute signal and a single class")
+    texts = {}
+    for hs in ("0", "1", "7"):
+        e = dict(os.environ)
+        e.update({"PYTHONHASHSEED": hs, "VERIF_REPO": env.REPO, "PYTHONDONTWRITEBYTECODE": "1"})
+        p = subprocess.run([sys.executable, os.path.join(env.VERIF, "checks", "c02_child.py")], input=json.dumps(case), text=True,
+                           stdout=subprocess.PIPE, stderr=subprocess.PIPE, env=e, cwd=env.VERIF, timeout=300)
+        if p.returncode == 3:
+            return skip("not elaborable")
+        if p.returncode != 0:
+            raise RuntimeError("c02_child failed: " + p.stderr[-500:])
+        texts[hs] = p.stdout
+    if len(set(texts.values())) != 1:
+        a, b = [texts[k] for k in ("0", "1")] if texts["0"] != texts["1"] else [texts[k] for k in ("0", "7")]
+        d = [(x, y) for x, y in zip(a.splitlines(), b.splitlines()) if x != y][:3]
+        return bad("reproducible-process", "text differs between processes with different PYTHONHASHSEED: %r" % d,
+                   key="irreproducible-hashseed")
+    return ok(nt=True, cls=["multi-attr"] if any(len(s.get("vattr", [])) >= 2 for c in case["classes"] for s in c["sigs"]) else [])
+
+
 def subchecks():
     return [
         Sub("namespace", run_namespace, strategy=st_namespace, examples=(6000, 200000), isolate=False,
@@ -400,4 +465,8 @@ def subchecks():
             rule="module tree elaborated twice and converted; declarations parsed from the text"),
         Sub("keywords", run_keyword, enum=enum_keywords, exhaustive=True, isolate=False, shards=(4, 4),
             rule="all IEEE 1800-2017 keywords x {override, attribute name} (exhaustive)"),
+        Sub("suffix-family", run_family, enum=enum_family, exhaustive=True, isolate=False,
+            rule="ALL request sequences of 2..5 (thorough 6) names from the family x, x_1, x_2, x_1_1, x_3 (exhaustive)"),
+        Sub("hashseed", run_hashseed, strategy=st_hashseed, examples=(64, 800), isolate=False, timeout=(900, 20000),
+            rule="generated module trees with multi-attribute signals converted in separate processes with PYTHONHASHSEED 0/1/7"),
     ]
